@@ -5,7 +5,7 @@
   same number of black nodes on every path, no right-leaning lone red link (2-3-4 variant:
   `#define LLRB234` is re-read from the source on every run, Generated/TreeConfig.lean).
 -/
-import QlibcModel.Tree.TableSpec
+import QlibcModel.Tree.History
 import QlibcModel.Generated.TreeConfig
 
 namespace Qlibc.Props.C02
@@ -20,6 +20,21 @@ theorem variant_is_234 : Generated.llrb234 = true := rfl
 theorem put_preserves_llrb (k : K) (mk : Option α) (onDup : α → α) (t : T α) (h : LLRB t) :
     ∃ t' added, put cmp key k mk onDup (size t + 1) t = .ok (t', added) ∧ LLRB (blacken t') :=
   put_llrb cmp key k mk onDup t h
+
+/-- removal — of a present key or of an absent one — from a valid search tree never faults
+    (no NULL dereference, no failed assertion) and gives a valid tree -/
+theorem remove_preserves_llrb (hc : CmpOk cmp) (copyKV : α → α → α) (k : K) (t : T α) (h : LLRB t)
+    (ho : Ordered cmp key t) :
+    ∃ t' enoent, remove cmp key copyKV k (size t + 1) t = .ok (t', enoent) ∧ LLRB (blacken t') :=
+  remove_llrb hc copyKV k t h ho
+
+/-- after every operation of every history the table is a valid left-leaning red-black search
+    tree with an exact key count -/
+theorem reachable_llrb (hc : CmpOk cmp) (isEmpty : V → Bool) (ops : List (Op K V)) :
+    ∃ s', (Tbl.init : Tbl K V).run cmp isEmpty ops = .ok (s', (specRun cmp isEmpty (Tbl.init : Tbl K V).abs ops).2) ∧
+      LLRB s'.root ∧ Ordered cmp keyOf s'.root ∧ s'.num = size s'.root ∧ check s'.root = 0 := by
+  obtain ⟨s', h1, h2, _⟩ := Tbl.run_refines cmp isEmpty hc ops (Tbl.init : Tbl K V) (Tbl.init_inv cmp)
+  exact ⟨s', h1, h2.llrb, h2.ordered, h2.count, (check_iff_llrb _).mpr h2.llrb⟩
 
 /-- the empty tree is valid -/
 theorem nil_llrb : LLRB (nil : T α) := ⟨0, Bal.nil⟩
